@@ -1,0 +1,9 @@
+//go:build verif
+
+// Machine-checked contracts for govc (see /verif/DESIGN.md). Comments only;
+// compiled only with the build tag "verif".
+
+package authorizers
+
+//@ func (*remoteAuthorizer).Execute
+//@   props C10
